@@ -934,6 +934,14 @@ func run(t *testing.T, p *Plan, withFault bool) (out core.Outcome) {
 		}
 		e.planted = append(e.planted, abs)
 		out.Probe("planted-link")
+		if strings.HasSuffix(at, "/.gitignore") && i%2 == 0 {
+			// a regular .gitignore at the root next to a symlinked one further down: a guard that inspects the
+			// wrong one of the two (the root's, for a nested file) is only wrong when the root's exists
+			if d.Lookup(wtRoot+"/.gitignore") == "" {
+				_ = d.WriteFile(wtRoot+"/.gitignore", []byte("*.tmp\n"), 0o644)
+				out.Probe("regular-root-gitignore-next-to-nested-symlinked-one")
+			}
+		}
 	}
 
 	e.r = &rec{d: d, pers: pers, view: e.view}
